@@ -181,6 +181,18 @@ func init() {
 					}
 					id, body := convMessage(rr, t)
 					f := t.frame(id, body)
+					if !burstMode && rr.Intn(15) == 0 {
+						// a message whose header names another phone or uses the other header version: it is answered with its own
+						// header fields, whatever the connection has carried so far
+						oh := hdrSpec{id: id, serial: t.serial, ver: t.ver, verbyte: 1, phone: t.phone, body: body}
+						if rr.Intn(2) == 0 {
+							oh.ver = 1 - t.ver
+							oh.phone = randPhone(rr, oh.ver)
+						} else {
+							oh.phone = randPhone(rr, t.ver)
+						}
+						f = buildFrame(oh)
+					}
 					if rr.Intn(4) == 0 { // coalesce with the next frame in one write
 						id2, body2 := convMessage(rr, t)
 						f = append(f, t.frame(id2, body2)...)
